@@ -1,6 +1,9 @@
-"""XCM — the node / element renumbering that every solver performs between LoadMesh and assembly
-(FEASolver::Cuthill, SortElements, the three SortNodes overrides).
-Model: coq/theories/Renumber.v; proofs: RenumberProofs.v; theorems: Properties_XCM.v.
+"""xcm — extension of the C02 check: the node / element renumbering that every solver performs between
+LoadMesh and assembly (FEASolver::Cuthill, SortElements, the three SortNodes overrides).
+Model: coq/theories/Renumber.v; proofs: RenumberProofs.v; theorems: Properties_C02_renumber.v,
+Properties_C08_renumber.v, Properties_C07_renumber.v, Properties_C09_bandwidth.v (listed as
+EXTRA_PROPERTY_FILES by c02.py / c08.py / c07.py / c09.py).  Standalone development run (proof files +
+correspondence, nothing written to evidence/):  python3 tools/props/xcm.py [quick|thorough].
 Correspondence: real meshes written by the real fmesher for generated geometries (all three file
 types: single regions, holes, several disconnected meshed regions, (anti)periodic pairs, very small
 meshes, nodes that belong to no element) and hand-made .node/.ele/.edge/.pbc triples (paths, stars,
@@ -10,7 +13,8 @@ Cuthill(false); the model is evaluated by vm_compute on the same .edge/.ele/.pbc
 exactly the same newnum / BandWidth / node order / element order / pbc list / quad nodes.
 Oracle on the implementation's output alone: nodes and elements are permuted with their records
 intact, the renumbered mesh is the isomorphic image, BandWidth bounds every edge and element side."""
-import os, json, math
+import os, sys, json, math
+sys.path.insert(0, os.path.dirname(os.path.dirname(os.path.abspath(__file__))))     # tools/ (standalone run)
 import vlib, femgen, meshlib, geomgen
 from femgen import Builder, mesh_diameter
 
@@ -18,9 +22,10 @@ LEVEL = "proof"
 COQ_MODULES = ["Renumber"]
 ASSUMPTIONS = [
     "the model is hand-written; its tie to cuthill.cpp / SortNodes is the correspondence run here (exact equality of every dumped integer)",
-    "theorems assume the guard renumber_guard (NumNodes >= 2, every .edge index < NumNodes, NumNodes <= n_lines + 1); a mesh written by "
-    "Triangle has one .edge line per mesh edge and every connected component of a triangulation has at least as many edges as vertices; "
-    "outside the guard the start-node search can loop forever and NumNodes = 1 reads nxtnum[1] (both exhibited as _refuted examples)",
+    "theorems assume the guard renumber_guard (NumNodes >= 2, every .edge index < NumNodes), which every mesh written by fmesher "
+    "satisfies (at least one triangle; Triangle writes .edge with indices of .node); nodes without edges (stray drawn points kept by the "
+    "periodic path, which runs Triangle without -j) and meshes with fewer lines than nodes are inside the guard; NumNodes = 1 reads "
+    "nxtnum[1] (_refuted example, hand-made files only)",
     "the node / element records are opaque payloads of the model (SortNodes and std::swap move whole objects); the harness checks on every "
     "run that coordinates, markers, conductors, edge conditions, block and label travel with the record",
     "C++ int overflow is not modelled (indices are far below 2^31)",
@@ -122,7 +127,14 @@ def gen_problem(rng, k, quick):
     if r == 1:
         return fam_tiny(rng, kind, quick)
     if r == 4:
-        return rng.choice([geomgen.fam_periodic_lines, geomgen.fam_periodic_arcs])(rng, kind, quick)
+        p = rng.choice([geomgen.fam_periodic_lines, geomgen.fam_periodic_arcs])(rng, kind, quick)
+        if rng.random() < 0.6:
+            # the periodic path of fmesher runs Triangle without -j: drawn points outside every meshed region
+            # stay in the .node file as nodes without any edge
+            for k in range(rng.choice([1, 2, 5])):
+                p["points"].append(dict(x=9.0 + 0.5 * k, y=7.0 + 0.25 * k))
+            p["features"] = ["periodic+stray-points"] + p["features"][1:]
+        return p
     return geomgen.gen_any(rng, k + rng.randrange(8), quick=quick)
 
 
@@ -131,6 +143,7 @@ def hand_graphs(rng, quick):
     """(name, N, edges, pbcs, ages)"""
     G = []
     G.append(("path5", 5, [(0, 1), (1, 2), (2, 3), (3, 4)], [], []))
+    G.append(FORMER_HANG)
     G.append(("path-shuffled", 6, [(3, 1), (1, 5), (5, 0), (0, 4), (4, 2)], [(0, 5, 0)], []))
     G.append(("star7", 7, [(3, k) for k in range(7) if k != 3], [], []))
     G.append(("two-triangles", 6, [(0, 1), (1, 2), (2, 0), (3, 4), (4, 5), (5, 3)], [(0, 3, 0), (2, 5, 1)], []))
@@ -158,9 +171,42 @@ def hand_graphs(rng, quick):
     return G
 
 
-# the 7-node forest on which the start-node search of Cuthill never ends (Properties_XCM.v,
-# C08_renumber_start_search_hang_refuted): numcon = [2,2,1,1,1,1,2], n_lines = 5
-HANG = ("forest-hang", 7, [(0, 1), (0, 2), (1, 3), (6, 4), (6, 5)], [], [])
+# the 7-node forest on which the start-node search of Cuthill never ended before /repo commit e99587c
+# (numcon = [2,2,1,1,1,1,2], n_lines = 5; Properties_C08_renumber.v, C08_renumber_former_hang_forest_terminates):
+# kept as a regression case, like the periodic mesh with stray points below
+FORMER_HANG = ("former-hang-forest", 7, [(0, 1), (0, 2), (1, 3), (6, 4), (6, 5)], [], [])
+
+
+def stray_points_case(ctx):
+    """electrostatic periodic cell + I stray points drawn outside the domain, T < I <= n_lines - 7, meshed by the
+    real fmesher (fresh file each time: fmesher rewrites its input).  Returns (base, NumNodes, edges, problem) when
+    the mesh has NumNodes > n_lines + 1 (where the start-node search used to loop forever), else None."""
+    def mesh(I, tag):
+        p = geomgen.fam_periodic_lines(vlib.Rng(0), "fee", True)
+        for k in range(I):
+            p["points"].append(dict(x=9.0 + 0.25 * k, y=7.0))
+        f = os.path.join(ctx.work, "stray_%s.fee" % tag)
+        femgen.write(p, f)
+        rc, out, err = vlib.sh([ctx.snap.tool("fmesher"), f], timeout=300)
+        base = f[:-4]
+        if rc != 0 or not os.path.exists(base + ".edge"):
+            return None
+        X, _ = meshlib.read_node(base + ".node")
+        E = [(a, b) for (a, b, m) in meshlib.read_edge(base + ".edge")]
+        T, _ = meshlib.read_ele(base + ".ele")
+        return base, len(X), E, len(T), p
+    r = mesh(104, "a")
+    if r is None:
+        return None
+    base, n, E, T, p = r
+    if not (n > len(E) + 1):
+        r = mesh(T + 6, "b")
+        if r is None:
+            return None
+        base, n, E, T, p = r
+    if n > len(E) + 1:
+        return base, n, E, p
+    return None
 
 
 def write_hand_case(ctx, kind, name, n, edges, pbcs, ages, rng, idx):
@@ -240,9 +286,9 @@ def parse_dump(path):
     return d
 
 
-def run_harness(ctx, kind, base, timeout=120):
-    exe = vlib.build_harness(ctx.snap, "h_cuthill", libs=("esolver", "hsolver", "fsolver", "femm"))
-    dump = base + ".cmdump"
+def run_harness(ctx, kind, base, timeout=120, snap=None):
+    exe = vlib.build_harness(snap or ctx.snap, "h_cuthill", libs=("esolver", "hsolver", "fsolver", "femm"))
+    dump = base + (".cmdump" if snap is None else ".cmdump-san")
     if os.path.exists(dump):
         os.remove(dump)
     rc, out, err = vlib.sh([exe, SOLVER[kind], base, dump], timeout=timeout)
@@ -306,6 +352,31 @@ def element_side_bound(d, edges):
     return None
 
 
+def sides_not_in_edges(d, edges):
+    """hypothesis of C09_bandwidth_bounds_every_element_side: every element side is a line of the .edge file"""
+    es = set()
+    for (a, b) in edges:
+        es.add((a, b)); es.add((b, a))
+    for e in d["before"]["eles"]:
+        p = e[1:4]
+        for j in range(3):
+            if (p[j], p[(j + 1) % 3]) not in es:
+                return "element %d side (%d,%d) is not a line of the .edge file" % (e[0], p[j], p[(j + 1) % 3])
+    return None
+
+
+def san_snapshot(ctx):
+    """the ASan/UBSan/_GLIBCXX_ASSERTIONS build of the same tree: built on demand in the thorough tier,
+    used in the quick tier only when it is already there"""
+    root = os.path.join(vlib.SCRATCH, "snap-" + vlib.tree_hash())
+    if ctx.quick() and not os.path.exists(os.path.join(root, "build-san", ".built")):
+        return None
+    try:
+        return vlib.snapshot("san")
+    except vlib.BuildError:
+        return None
+
+
 def is_sorted_by_score(d):
     s = [e[1] + e[2] + e[3] for e in d["after"]["eles"]]
     return all(s[i] <= s[i + 1] for i in range(len(s) - 1))
@@ -364,10 +435,10 @@ def collect_cases(ctx, rng, quick, nmesh, hang=True, start=0):
     """-> list of dict(name, kind, base, n, edges, dump, features)"""
     cases = []
     for k in range(nmesh):
-        if not quick and k % 10 == 9:
-            p = fam_large(rng, ["fee", "feh", "fem"][(k // 10) % 3], quick)
-        elif not quick and k % 10 == 8:
-            p = fam_islands(rng, ["fem", "fee", "feh"][(k // 10) % 3], quick, fine=True)
+        if not quick and k % 20 == 19:
+            p = fam_large(rng, ["fee", "feh", "fem"][(k // 20) % 3], quick)
+        elif not quick and k % 20 == 9:
+            p = fam_islands(rng, ["fem", "fee", "feh"][(k // 20) % 3], quick, fine=True)
         else:
             p = gen_problem(rng, k, quick)
         kind = p["kind"]
@@ -382,6 +453,12 @@ def collect_cases(ctx, rng, quick, nmesh, hang=True, start=0):
         X, _ = meshlib.read_node(base + ".node")
         cases.append(dict(name="mesh%d" % (start + k), kind=kind, base=base, n=len(X), edges=edges, features=p.get("features", []),
                           problem=p, real=True))
+    if hang:
+        st = stray_points_case(ctx)
+        if st is not None:
+            sbase, sn, sedges, sp = st
+            cases.append(dict(name="former-hang-stray-points", kind="fee", base=sbase, n=sn, edges=sedges,
+                              features=["periodic+many-stray-points", "fee"], problem=sp, real=True))
     hg = hand_graphs(rng, quick)
     for idx, (name, n, edges, pbcs, ages) in enumerate(hg):
         kind = ["fem", "fee", "feh"][idx % 3] if not ages else "fem"
@@ -401,22 +478,25 @@ def correspond(ctx):
     rng = ctx.rng
     quick = ctx.quick()
     dis = []
-    cases = collect_cases(ctx, rng, quick, 18 if quick else 90)
+    cases = collect_cases(ctx, rng, quick, 18 if quick else 80)
     exprs, evald = [], []
     feats, sizes = {}, []
     unsorted = 0
     guard_out = 0
+    few_lines = 0
     nontriv = set()
     for c in cases:
         for ft in c["features"][:2]:
             feats[ft] = feats.get(ft, 0) + 1
-        rc, d, err = run_harness(ctx, c["kind"], c["base"])
+        rc, d, err = run_harness(ctx, c["kind"], c["base"], timeout=60 if c["n"] < 500 else 300)
         if rc != 0 or not d["done"]:
-            ctx.fail("the real Cuthill did not complete (rc=%d, %s) on %s" % (rc, d["status"], c["name"]), stderr=err[-300:], **replay_info(c))
+            ctx.fail("the real Cuthill did not complete (rc=%d%s, %s) on %s" % (rc, " = timeout" if rc == 124 else "", d["status"], c["name"]),
+                     stderr=err[-300:], **replay_info(c))
             continue
         c["dump"] = d
         n, edges = c["n"], c["edges"]
-        inguard = n >= 2 and n <= len(edges) + 1 and all(0 <= a < n and 0 <= b < n for (a, b) in edges)
+        inguard = n >= 2 and all(0 <= a < n and 0 <= b < n for (a, b) in edges)
+        few_lines += 1 if n > len(edges) + 1 else 0
         if c["real"] and not inguard:
             ctx.fail("a mesh written by fmesher violates the guard of the renumbering theorems (NumNodes=%d, n_lines=%d)" % (n, len(edges)),
                      **replay_info(c))
@@ -426,6 +506,9 @@ def correspond(ctx):
         if msg:
             ctx.fail("renumbering (%s): %s" % (c["name"], msg), **replay_info(c))
         if c["real"]:
+            msg = sides_not_in_edges(d, edges)
+            if msg:
+                ctx.fail("mesh written by fmesher (%s): %s" % (c["name"], msg), **replay_info(c))
             msg = element_side_bound(d, edges)
             if msg:
                 ctx.fail("renumbering (%s): %s" % (c["name"], msg), **replay_info(c))
@@ -450,38 +533,59 @@ def correspond(ctx):
         ncmp += 1
         if msg:
             dis.append(dict(what="Cuthill correspondence (%s, NumNodes=%d): %s" % (c["name"], c["n"], msg), **replay_info(c)))
-    # the start-node search that never ends: the model runs out of every fuel, the real code must not return
-    name, n, edges, pbcs, ages = HANG
-    base = write_hand_case(ctx, "fee", name, n, edges, pbcs, ages, rng, 9000)
-    rc, d, err = run_harness(ctx, "fee", base, timeout=4)
-    mh = vlib.coq_eval(HEADER, ["start_search_io 100000 %d %s" % (n, nlist("(%d,%d)" % e for e in edges)),
+    # outside the guard: NumNodes = 1 / 0; and the start search alone on the former hang input
+    fh = FORMER_HANG
+    mh = vlib.coq_eval(HEADER, ["start_search_io %d %s" % (fh[1], nlist("(%d,%d)" % e for e in fh[2])),
                                 "numbering_io 1 []", "numbering_io 0 []"])
-    hang_real = (rc == 124 and not d["done"])
-    hang_model = (mh[0][0] == 2)
-    if hang_real != hang_model:
-        dis.append(dict(what="start-node search on the 7-node forest: real code %s, model %s" %
-                        ("does not return" if hang_real else "returned (rc=%d)" % rc,
-                         "runs out of fuel 100000" if hang_model else "returns %r" % (mh[0],)), hand_made=dict(n=n, edges=edges)))
+    if mh[0][0] != 0 or tuple(mh[0][1]) != (2, 0):
+        dis.append(dict(what="model: the start-node search on the former hang forest should return (j, n0) = (2, 0), got %r" % (mh[0],)))
     if mh[1][0] != 1 or mh[2][0] != 1:
         dis.append(dict(what="model: NumNodes = 1 / 0 should be an out-of-range access (nxtnum[1] / numcon[0]), got codes %r %r" % (mh[1][0], mh[2][0])))
+    # index safety against the instrumented build (ASan + UBSan + libstdc++ assertions on operator[]):
+    # wherever the model returns Ok the real Cuthill must run clean, and on the one-node mesh, where the
+    # model reports the out-of-range read nxtnum[1], the instrumented run must abort
+    san = san_snapshot(ctx)
+    san_runs = 0
+    san_abort = None
+    if san is not None:
+        for c, m in zip(evald, res):
+            if c["n"] > (60 if quick else 400) or m[0] != 0:
+                continue
+            rc, d2, err = run_harness(ctx, c["kind"], c["base"], timeout=300, snap=san)
+            san_runs += 1
+            if rc != 0 or not d2["done"]:
+                ctx.fail("the real Cuthill fails under ASan/UBSan/libstdc++ assertions (rc=%d) on %s, where the model finds every access in range"
+                         % (rc, c["name"]), stderr=err[-600:], **replay_info(c))
+            elif d2["after"] != c["dump"]["after"] or d2["bw"] != c["dump"]["bw"]:
+                dis.append(dict(what="Cuthill gives different results in the plain and the instrumented build on %s" % c["name"], **replay_info(c)))
+        base1 = write_hand_case(ctx, "fee", "single-node", 1, [(0, 0)], [], [], rng, 9001)
+        rc, d2, err = run_harness(ctx, "fee", base1, timeout=120, snap=san)
+        san_abort = (rc != 0)
+        if not san_abort:
+            dis.append(dict(what="one-node mesh: the model reports an out-of-range read of nxtnum[1] but the instrumented real Cuthill ran clean",
+                            hand_made=dict(n=1, edges=[(0, 0)])))
     cov = ctx.res.cov
-    cov["evaluations"] = len(cases) + 1
+    cov["cm_instrumented_runs"] = san_runs
+    cov["cm_one_node_mesh_aborts_under_assertions"] = san_abort
+    cov["evaluations"] = len(cases)
     cov["distinct_nontrivial"] = len(nontriv)
     cov["rule"] = ("real fmesher meshes of generated geometries of all three file types (islands = several disconnected meshed regions, "
                    "holes, nested regions, arcs, (anti)periodic pairs, one-triangle / two-triangle meshes, drawn points outside every "
                    "region = nodes without edges; in the thorough tier meshes of a few thousand nodes) and hand-made .node/.ele/.edge/.pbc "
-                   "triples (paths, stars, several components, hubs, forests, self loops, double edges, isolated nodes, pbc pairs, air-gap "
+                   "triples (paths, stars, several components, hubs, forests incl. the one on which the start search used to loop forever, self loops, "
+                   "double edges, isolated nodes, pbc pairs, air-gap "
                    "quad nodes, random multigraphs) loaded by the real FSolver / ESolver / HSolver; dump before / after the real "
                    "Cuthill(false); model by vm_compute on the same data; all integers must be equal; non-trivial = more than 3 nodes, "
                    "distinct = distinct edge lists")
     cov["input_distribution"] = feats
-    cov["mesh_sizes"] = sizes
-    cov["values_compared"] = sum(2 * c["n"] + 4 * len(c["dump"]["after"]["eles"]) + 1 for c in evald)
-    cov["cases_compared"] = ncmp
+    cov["cm_mesh_sizes"] = sizes
+    cov["cm_values_compared"] = sum(2 * c["n"] + 4 * len(c["dump"]["after"]["eles"]) + 1 for c in evald)
+    cov["cm_cases_compared"] = ncmp
     cov["samples"] = [dict(name=c["name"], kind=c["kind"], nodes=c["n"], edges=len(c["edges"]), bandwidth=c["dump"]["bw"]) for c in evald[:4]]
-    cov["elements_left_unsorted_by_SortElements"] = unsorted
-    cov["cases_outside_guard"] = guard_out
-    cov["start_search_hang"] = dict(real_code_timed_out=hang_real, model_out_of_fuel=hang_model)
+    cov["cm_elements_left_unsorted_by_SortElements"] = unsorted
+    cov["cm_cases_outside_guard"] = guard_out
+    cov["cm_cases_with_more_than_n_lines_plus_1_nodes"] = few_lines
+    cov["cm_former_hang_inputs_compared"] = [c["name"] for c in evald if c["name"].startswith("former-hang")]
     return dis
 
 
@@ -501,3 +605,48 @@ def search(ctx, broken):
             found.append(dict(what="renumbering (%s): %s" % (c["name"], msg), **replay_info(c)))
             break
     return found
+
+
+# ------------------------------------------------------------------------- standalone run ----
+PROPERTY_FILES = ["C02_renumber", "C08_renumber", "C07_renumber", "C09_bandwidth"]
+
+
+def main(argv):
+    """development run outside ./check: the four property files are re-checked, the correspondence is run against
+    the current /repo; nothing is written to evidence/"""
+    import time
+    tier = argv[1] if len(argv) > 1 and argv[1] in ("quick", "thorough") else "quick"
+    seed = int(os.environ.get("VERIF_SEED", "20260929") or 0)
+    t0 = time.time()
+
+    class Res:
+        pass
+    res = Res(); res.cov = {}; res.notes = []; res.assumptions = []
+    rc = 0
+    nthm = 0
+    for pf in PROPERTY_FILES:
+        pr = vlib.coq_check_property(pf)
+        nthm += pr["discharged"]
+        axioms = sorted(set(a for v in pr.get("assumptions", {}).values() for a in v))
+        vlib.log("[xcm] Properties_%s: %d/%d theorems, axioms %r%s" % (pf, pr["discharged"], pr["obligations"], axioms,
+                                                                        "" if pr["ok"] else "  BROKEN: " + pr["log"][-600:]))
+        if not pr["ok"]:
+            rc = 1
+    rcm, outm = vlib.coq_make(["theories/%s.vo" % m for m in COQ_MODULES])
+    if rcm != 0:
+        vlib.log("[xcm] model files do not compile: " + outm[-600:]); rc = 1
+    ctx = vlib.Ctx("XCM", vlib.snapshot(), tier, seed, res)
+    dis = correspond(ctx)
+    for d in dis[:10]:
+        vlib.log("DISAGREEMENT " + d["what"][:400])
+    for f in ctx.failing_inputs[:10]:
+        vlib.log("VIOLATION " + f["what"][:400])
+    if dis or ctx.failing_inputs:
+        rc = 1
+    vlib.log("[xcm] coverage: " + json.dumps({k: v for k, v in res.cov.items() if k not in ("rule", "input_distribution", "cm_mesh_sizes")}, default=str)[:1500])
+    vlib.log("[xcm] tier=%s seed=%d theorems=%d exit=%d wall=%.1fs" % (tier, seed, nthm, rc, time.time() - t0))
+    return rc
+
+
+if __name__ == "__main__":
+    sys.exit(main(sys.argv))
